@@ -121,6 +121,20 @@ def imp(x: "B"):
     r = x._imp
     if r is not _UNSET:
         return r
+    global _IMP_DEPTH
+    if _IMP_DEPTH > 40:
+        return {}       # chains of definitions are followed to a bounded depth ("implies nothing" is always sound)
+    _IMP_DEPTH += 1
+    try:
+        return _imp_compute(x)
+    finally:
+        _IMP_DEPTH -= 1
+
+
+_IMP_DEPTH = 0
+
+
+def _imp_compute(x: B):
     k = x.kind
     if k == "T":
         r = {}
